@@ -143,6 +143,33 @@ class MarkovCheck(object):
                     c['tau'], c['gamma'] = r.choice([(3.0 / heavy, 1.0), (6.0 / heavy, 0.5)])
                 c['graph'] = g
                 c['I0'], c['R0'] = [0], ([r.randrange(1, L + 2)] if (self.MODEL == 'SIR' and r.random() < 0.3) else [])
+            elif fam == 3:
+                # one long run: thousands of events through the same candidate lists within a single call (SIS: a small dense graph for
+                # a long time; SIR: a network of ~1500 nodes), with node and edge weights
+                if self.MODEL == 'SIS':
+                    L = r.randint(5, 8)
+                    g = {'n': L, 'edges': [[a, b] for a in range(L) for b in range(a + 1, L)], 'labels': g['labels'], 'decoy': g.get('decoy', False), 'kind': 'long'}
+                    c['tau'], c['gamma'] = r.choice([(1.5, 1.0), (2.5, 1.0)])
+                    c['I0'], c['R0'] = list(range(L)), []
+                    c['long_span'] = 400.0 if q else 1500.0
+                    c['force_gill'] = (k // 8) % 3 != 2
+                else:
+                    L = r.choice([1200, 1800])
+                    rr = random.Random(cs + 1)
+                    es = set()
+                    for a in range(L):
+                        es.add((a, (a + 1) % L) if a + 1 < L else (0, a))
+                        b = rr.randrange(L)
+                        if b != a:
+                            es.add((min(a, b), max(a, b)))
+                    g = {'n': L, 'edges': sorted([list(e) for e in es]), 'labels': r.choice(['int', 'offset', 'str']), 'kind': 'long'}
+                    c['tau'], c['gamma'] = r.choice([(2.0, 1.0), (1.0, 0.5)])
+                    c['I0'], c['R0'] = sorted(rr.sample(range(L), 5)), []
+                g['ew'] = {simcase.TW: [r.choice([0.8, 1.0, 1.2, 2.0]) for _ in g['edges']]}
+                g['nw'] = {simcase.RW: [r.choice([0.8, 1.0, 1.2]) for _ in range(g['n'])]}
+                c['wm'] = 'both'
+                c['graph'] = g
+                c['runs_override'] = 6 if q else 40
             elif fam == 7:
                 # bridge: the only infectious-susceptible contact is a very heavy one; once it has fired the candidate list is empty and
                 # is refilled with light contacts (a stale rejection bound would make every later selection very long)
@@ -153,8 +180,8 @@ class MarkovCheck(object):
                 c['graph'] = g
                 c['tau'], c['gamma'] = 1.0, r.choice([0.3, 1.0])
                 c['I0'], c['R0'] = [0], []
-            c.update({'kind': 'rescale', 'sim': (self.GILL, self.FAST)[(k // 8 + k) % 2], 'runs': 150 if q else 2500, 'seed': cs, 'ntests': 3 * nres,
-                      'tmax': 'inf' if self.MODEL == 'SIR' else c['tmin'] + r.choice([1.5, 3.0])})
+            c.update({'kind': 'rescale', 'sim': self.GILL if c.pop('force_gill', False) else (self.GILL, self.FAST)[(k // 8 + k) % 2], 'runs': c.pop('runs_override', 150 if q else 2500), 'seed': cs, 'ntests': 4 * nres,
+                      'tmax': 'inf' if self.MODEL == 'SIR' else c['tmin'] + (c.pop('long_span', None) or r.choice([1.5, 3.0]))})
             cases.append(c)
         return cases
 
@@ -434,6 +461,7 @@ class MarkovCheck(object):
         us = []
         dev, var = 0.0, 0.0
         wdev, wvar, nwho = 0.0, 0.0, 0
+        hz, nhz = 0.0, 0
         nev = 0
         rr = random.Random(case['seed'] + 3)
         simcase.seed_all(case['seed'])
@@ -460,7 +488,9 @@ class MarkovCheck(object):
                     lam = rec_rate + inf_rate
                     # who: given that the event is an infection (recovery), the node is v with probability pressure(v)/sum (rate(v)/sum);
                     # test statistic: indicator that the node with the largest pressure (rate) was the one
-                    if new == 'I':
+                    if len(nodes) > 400 and nev % 10:
+                        cand = {}            # large networks: every tenth event only (the candidate table costs O(N))
+                    elif new == 'I':
                         cand = {x: w for x, w in press.items() if status[x] == 'S' and w > 0}
                     else:
                         cand = {x: gamma * nw(x) for x in nodes if status[x] == 'I'}
@@ -477,6 +507,8 @@ class MarkovCheck(object):
                         viol(res, '%s|%s|event_after_total_rate_zero' % (case['sim'], case['wm']), {'t': et})
                         return
                     us.append(1 - math.exp(-lam * (et - t)))
+                    hz += lam * (et - t)
+                    nhz += 1
                     p_inf = inf_rate / lam
                     is_inf = 1.0 if new == 'I' else 0.0
                     dev += is_inf - p_inf
@@ -525,12 +557,23 @@ class MarkovCheck(object):
         ks = stats.ks_uniform(us)
         zt = stats.ztest(dev, var)
         wt = stats.ztest(wdev, wvar)
+        # the integrated hazards of the completed waiting times are i.i.d. Exp(1): their sum is Gamma(n, 1) exactly
+        if nhz:
+            from scipy.stats import gamma as _gamma
+            ph = float(2 * min(_gamma.cdf(hz, nhz), _gamma.sf(hz, nhz)))
+            setmax(res, 'rescale_min_neglog10_p', -math.log10(max(ph, 1e-300)))
+            if ph < alpha:
+                viol(res, '%s|%s|total_integrated_hazard' % (case['sim'], case['wm']), {'sum_of_rate_times_waiting_time': hz, 'events': nhz, 'ratio': hz / nhz, 'p': ph,
+                                                                                       'graph_kind': case['graph'].get('kind'), 'n': case['graph']['n'], 'tau': tau, 'gamma': gamma})
         bump(res, 'rescale_who_events', nwho)
         if case['graph'].get('kind') in ('hubstar', 'bridge'):
             bump(res, 'rescale_uneven_or_hub_cases')
+        if case['graph'].get('kind') == 'long':
+            bump(res, 'rescale_long_run_cases')
+            setmax(res, 'rescale_max_events_in_one_call', nev // max(1, case['runs']))
         if nwho and wt['p'] < alpha:
             viol(res, '%s|%s|which_node_probability' % (case['sim'], case['wm']), {'z': wt, 'events': nwho, 'graph_kind': case['graph'].get('kind'), 'n': case['graph']['n'], 'tau': tau, 'gamma': gamma})
-        bump(res, 'rescale_tests', 3)
+        bump(res, 'rescale_tests', 4)
         bump(res, 'rescale_intervals', len(us))
         setmax(res, 'rescale_min_neglog10_p', -math.log10(max(min(ks['p'], zt['p']), 1e-300)))
         if ks['p'] < alpha:
